@@ -21,7 +21,7 @@ func GenerateScalarSuperSetRule(in profile.ScalarSetRule, iriExpander *misc.IriE
 	rego = append(rego, fmt.Sprintf("%s_array = %s with data.sourceNode as %s", inValuesTestVariable, pathResult.rule, in.Variable.Name))
 	rego = append(rego, fmt.Sprintf("%s_scalar = %s_array[_]", inValuesTestVariable, inValuesTestVariable))
 	rego = append(rego, fmt.Sprintf("%s = as_string(%s_scalar)", inValuesTestVariable, inValuesTestVariable))
-	rego = append(rego, fmt.Sprintf("%s = { \"%s\"}", inValuesVariable, strings.Join(in.Argument, "\",\"")))
+	rego = append(rego, fmt.Sprintf("%s = { %s}", inValuesVariable, regoStringList(in.Argument)))
 	// Add the validation
 	if in.Negated {
 		rego = append(rego, fmt.Sprintf("%s[%s]", inValuesVariable, inValuesTestVariable))
@@ -40,7 +40,7 @@ func GenerateScalarSuperSetRule(in profile.ScalarSetRule, iriExpander *misc.IriE
 		Path:       tracePath,
 		TraceNode:  in.Variable.Name,
 		TraceValue: BuildTraceValueNode(
-			fmt.Sprintf("\"negated\":%t,\"actual\": %s,\"expected\": \"%s\"", in.Negated, strings.ReplaceAll(inValuesTestVariable, "\"", "'"), in.JSONValues()),
+			fmt.Sprintf("\"negated\":%t,\"actual\": %s,\"expected\": \"%s\"", in.Negated, strings.ReplaceAll(inValuesTestVariable, "\"", "'"), regoStringContent(jsonStringList(in.Argument))),
 		),
 		Variable: inValuesTestVariable,
 	}
